@@ -112,7 +112,14 @@ fn span_j(tcx: TyCtxt<'_>, sp: Span) -> J {
 }
 
 fn def_path(tcx: TyCtxt<'_>, did: DefId) -> String {
-    tcx.def_path_str(did)
+    let v = tcx.def_path_str(did);
+    // Visible paths of foreign items can run through `extern crate serde as _serde` inside a
+    // derive's anonymous const (`model::mean_vari::_::_serde::Deserialize`); use the canonical
+    // path for those.
+    if !did.is_local() && (v.contains("::_::") || v.starts_with("_::")) {
+        return rustc_middle::ty::print::with_no_visible_paths!(tcx.def_path_str(did));
+    }
+    v
 }
 
 fn krate_of(tcx: TyCtxt<'_>, did: DefId) -> String {
@@ -446,6 +453,7 @@ impl<'tcx> Cx<'tcx> {
                 ];
                 if let Some(tr) = tcx.trait_of_assoc(*did) {
                     f.push(("trait", s(def_path(tcx, tr))));
+                    f.push(("trait_krate", s(krate_of(tcx, tr))));
                     if let Some(st) = args.get(0).and_then(|a| a.as_type()) {
                         f.push(("self_ty", self.ty_j(st)));
                         f.push(("self_info", self.ty_info(st)));
@@ -666,14 +674,23 @@ impl<'tcx> Cx<'tcx> {
                         } else {
                             None
                         };
+                        let trd = if of_trait {
+                            tcx.impl_opt_trait_ref(par).map(|t| t.skip_binder().def_id)
+                        } else {
+                            None
+                        };
                         Some(obj! {
                             "self_ty": self.ty_j(st), "trait": opt(tr.map(s)),
+                            "trait_path": opt(trd.map(|d| s(def_path(tcx, d)))),
+                            "trait_krate": opt(trd.map(|d| s(krate_of(tcx, d)))),
                             "derived": b(tcx.is_automatically_derived(par)),
                             "impl_def": s(def_path(tcx, par))
                         })
                     }
                     DefKind::Trait => Some(obj! {
                         "self_ty": J::Null, "trait": s(def_path(tcx, par)),
+                        "trait_path": s(def_path(tcx, par)),
+                        "trait_krate": s(krate_of(tcx, par)),
                         "derived": b(false), "impl_def": s(def_path(tcx, par)),
                         "provided": b(true)
                     }),
